@@ -46,10 +46,17 @@ class SimDisk:
     def open(self, name: str, mode: str = "a") -> "SimFile":
         if name in self.files:
             old = self.files[name]
-            f = SimFile(self, name, mode, durable=old.durable if "a" in mode or "+" in mode and "w" not in mode else "")
+            keep = "a" in mode or ("+" in mode and "w" not in mode)
+            f = SimFile(self, name, mode, durable=old.durable)
+            self.files[name] = f
+            if not keep and old.durable:
+                # O_TRUNC: the old content is gone the moment the file is opened
+                self._op(f, "open_truncate", None)
+                f.durable = ""
+                f._pos = 0
         else:
             f = SimFile(self, name, mode)
-        self.files[name] = f
+            self.files[name] = f
         return f
 
     # -- fault plan --------------------------------------------------------------------
